@@ -63,7 +63,7 @@ theorem Inv.resumeOf {s : State} (hI : Inv s) {a : Actor} {n : Nat} {p : Pc} (hp
   have hI' := hI
   obtain ⟨kindC, kindF, lockOk, frWait, freshOk, freshUniq, freshVer, freshVerT, freshNode, wFreeTaken, preOk, postOk, ownOk, rsmTaken,
     freeTaken, pubNode, waiting, parked, listOk, scanOk, prevOk, placed, oScanOk, oNoneOk, aUnlockOk, aNextOk, aResumeOk, aFreeOk,
-    noRead, cTakeOk, allocUsed, noBad⟩ := hI
+    noRead, cTakeOk, cRemoveOk, allocUsed, noBad⟩ := hI
   obtain ⟨hs1, hs2, hs3, hs4, hs5, hs6, hs7, hs8, hs9⟩ := hshape
   constructor
   case kindC => simp only [setPc_pc, resumeOf_pc]; inv_grind
@@ -111,6 +111,7 @@ theorem Inv.resumeOf {s : State} (hI : Inv s) {a : Actor} {n : Nat} {p : Pc} (hp
   case aFreeOk => simp only [setPc_pc, resumeOf_pc, setPc_node, resumeOf_node]; inv_grind
   case noRead => simp only [setPc_pc, resumeOf_pc]; inv_grind
   case cTakeOk => simp only [setPc_pc, resumeOf_pc, setPc_box, resumeOf_box]; inv_grind
+  case cRemoveOk => simp only [setPc_pc, resumeOf_pc, setPc_node, resumeOf_node]; inv_grind
   case allocUsed => simp only [setPc_box, resumeOf_box]; inv_grind
   case noBad => simp only [setPc_bad, hbd]; exact noBad
 
